@@ -264,7 +264,13 @@ impl Compiler {
                 self.compile_expression(expr)?;
                 self.emit_opcode(OpCode::Pop);
             }
-            Stmt::Block(stmts) => self.compile_block_statement(stmts)?,
+            Stmt::Block(stmts) => {
+                self.compile_block_statement(stmts)?;
+                if stmts.is_empty() {
+                    // an empty block used as a statement: discard the null it pushed
+                    self.emit_opcode(OpCode::Pop);
+                }
+            }
             Stmt::Let(name, value) => {
                 let symbol = self.symbols.define(name);
                 self.compile_expression(value)?;
@@ -529,6 +535,9 @@ impl Compiler {
 
                 if self.last_instruction_is(OpCode::Pop) {
                     self.remove_last_instruction();
+                } else if !consequence.is_empty() {
+                    // block does not end in an expression: its value is null
+                    self.emit_opcode(OpCode::Null);
                 }
 
                 let pos_jump = self.instructions.len();
@@ -544,6 +553,8 @@ impl Compiler {
                     self.compile_block_statement(alternative)?;
                     if self.last_instruction_is(OpCode::Pop) {
                         self.remove_last_instruction();
+                    } else if !alternative.is_empty() {
+                        self.emit_opcode(OpCode::Null);
                     }
                 } else {
                     self.emit_opcode(OpCode::Null);
@@ -568,7 +579,8 @@ impl Compiler {
 
                 if self.last_instruction_is(OpCode::Pop) {
                     self.remove_last_instruction();
-                } else {
+                } else if !body.is_empty() {
+                    // (an empty body has already pushed its null)
                     self.emit_opcode(OpCode::Null);
                 }
 
